@@ -152,7 +152,7 @@ class Polyline3D(Base2DIn3D):
                 skip += 1
         new_vertices.append(self[-1])  # last vertex is always ok
         _new_poly = Polyline3D(new_vertices)
-        self._transfer_properties(_new_poly)
+        _new_poly._interpolated = self._interpolated  # the length may have changed
         return _new_poly
 
     def reverse(self):
